@@ -270,7 +270,13 @@ def dataclass_field_to_default(cls: type) -> dict[str, Any]:
 
 
 def is_builtin(o: Any) -> bool:
-    """Check if an object/singleton/class is a builtin in Python."""
+    """
+    Check if an object/singleton/class is a builtin in Python.
+
+    Values which can't be in-lined (via their `repr`) in generated code --
+    un-hashable ones such as a `list` or `dict`, and non-finite floats, i.e.
+    `nan` or `inf` -- are not considered a builtin.
+    """
 
 
 def create_new_class(
